@@ -30,6 +30,30 @@ CHECKS = {
  "C20": (True, "runtime monitor: detection_webs run on Pauli diagrams under several vertex numberings; every returned web checked against the spider constraints, independence by own F2 elimination, completeness against an independent edge-based linear system and brute-force firing enumeration, span equality across numberings",
          "Exploration with an exhaustive core: every diagram shape up to 4 spiders with up to 2 boundaries (22399 shapes) plus random diagrams, each under 6 numberings (boundaries first/last/interleaved/random); brute-force enumeration for <=10 spiders.",
          "Trusted base: oracle f2small (self-tested) and the edge-based formulation; reading: own-colour Pauli of a Z spider is X (what firing it generates), of an X spider Z.", "6/C20"),
+ "C06": (True, "runtime monitor: the real `quizx sim` binary run as a subprocess on generated circuits (amplitude / expectation / sampling, all method x parallel configurations, malformed queries), judged by the independent simulator; per-draw trace hook (H4) checks each sampled bit's conditional probability exactly instead of statistically",
+         "Exploration: ~18 000 CLI invocations (quick) over Clifford+T, other-phase, special and malformed families; printed probabilities/expectations vs O3 (1e-9 / 1e-6), every traced Bernoulli draw vs the Born conditional, printed samples consistent with the trace and of non-zero probability, answers equal across --cats/--bss/--parallel, malformed queries rejected without panic.",
+         "Trusted base: simulator O3; 120 s per-call watchdog (firing = inconclusive); hook H4 only reports the probability handed to the RNG.", "6/C06"),
+ "C17": (True, "runtime monitor: Mat2 gauss/rank/inverse/nullspace/algebra executed on exhaustive small matrices x all block sizes x both modes and biased random matrices, judged by an independent bit-row F2 oracle and by replaying the reported row operations on a second object",
+         "Exploration with an exhaustive core: all matrices of 26 small shapes (incl. 3x4, 4x3, 4x4) x every block size x both reduction modes, plus 60 000 random matrices up to 24x24 in 9 bias classes; rank, row-space equality, (reduced) echelon form, operation replay on an unrelated object, inverse iff invertible and two-sided, null-space annihilation/independence/count, 21 algebraic laws.",
+         "Trusted base: oracle f2 (self-tested against enumeration at every start).", "6/C17"),
+ "C18": (True, "runtime monitor: move histories on rank-decomposition trees (all small graphs + random), after every move a structural check, is_valid_for_graph and cached width/score vs clone-with-cleared-cache vs brute-force cut ranks from an independent F2 oracle; annealer parameter grid",
+         "Exploration: every labelled graph on 2-4 vertices x first move x seeds, 8000 random histories (n<=14, up to 200 moves, 3 backends, 3 RNGs: ~875 000 moves, ~887 000 width comparisons with empty/partial/full caches), annealer grid of 270 parameter points.",
+         "Trusted base: oracle f2 and the harness's own leaf-partition computation; rank_decomp uses rand::rng() so those 80 cases are judged on the returned tree only.", "6/C18"),
+ "C08": (True, "runtime monitor: the library's own tensor evaluation (diagrams and circuits, exact and float) compared entry by entry with the independent evaluator/simulator; comparison helpers against a model relation on generated tensor pairs; constructors/plug_n_qubits against a flat-tensor model in several memory layouts; Miri on a miniature workload (thorough)",
+         "Exploration: ~180 000 evaluations (quick): arbitrary/graph-like/gadget-rich/listed-shape/exhaustive-tiny diagrams in both backends, circuits over all supported gates, 11 classes of tensor pairs for ==/scalar_eq/compare/scalar_compare, constructors and in-place helpers in standard/swapped/column-major/strided layouts; thorough adds a Miri run (tree borrows) of 32 cases through to_tensor4/hadamard_at/plug_n_qubits.",
+         "Trusted base: O1/O2/O3 and the flat-tensor model tmodel (self-tested against O3). TensorF helpers are judged only on float-robust clauses.", "6/C08"),
+ "C11": (True, "runtime monitor: plug/append_graph/adjoint/plug_inputs/plug_outputs/plug_vertex/is_identity executed on generated composable pairs (seam-stress shapes, both and mixed backends) and compared with tensor algebra on the independent evaluator's results",
+         "Exploration: ~124 000 evaluations (quick): forced-arity pair generator with Hadamard boundary edges, bare wires, caps/cups, many seam wires into one spider; every list length 0..=n and all 5^len lists (len<=2, sampled beyond) for basis plugging; 9 near-identity variants for is_identity.",
+         "Trusted base: O1/O2 and the compose/tensor/dagger helpers (self-tested).", "6/C11"),
+ "C12": (True, "runtime monitor: all eight equality entry points called on generated circuit pairs with known relation; ground truth from the independent simulator/evaluator; definite answers counted so the check is not vacuous",
+         "Exploration: ~118 000 evaluations (quick) over independent, different-arity, re-extracted, commuted, cancelling, one-gate, global-phase, Hadamard-on-wire, wire-permutation and float-heavy pairs; Some(true) must mean equal for the requested mode, Some(false) not exactly equal, None allowed but counted; tensor check iff exactly equal (exact pool), dim check iff equal arities.",
+         "Trusted base: O3/O2; equal_graph_tensor calls predicted to be wider than 16 are not issued (counted).", "6/C12"),
+ "C13": (True, "runtime monitor: qgraph encode/decode and serde round trips executed on generated and simplifier-produced diagrams in all backend combinations, judged by an anchored isomorphism oracle, exact scalar comparison and the independent evaluator",
+         "Exploration: ~71 000 round-trip paths (quick): diagrams left by 8 simplifiers on Clifford+T inputs, arbitrary diagrams with H-boxes / coordinate modes / denominators <=256 and >256, every sqrt2^p*omega^k scalar for |p|<=40; iso with ordered inputs/outputs, phases, edge kinds, coordinates; scalar exact resp. 1e-9; E(decoded)=E(original).",
+         "Trusted base: oracle iso (every witness re-verified; self-tested), O1/O2.", "6/C13"),
+ "C14": (True, "runtime monitor: to_qasm/from_qasm round trips (exhaustive k/d for d<=16), generated QASM texts with independently computed expected circuits, and a rejection corpus that must yield Err without panic",
+         "Exploration with an exhaustive core: all 607 single-gate round trips for every k/d, d<=16, plus 8000 random circuits (zero gates, idle qubits, ancilla gates), 10 000 texts (several registers, 10 phase-expression forms, nested user gates, broadcasts, measure), 5000 rejection texts (barrier, reset, if, U, undefined / include-only names) with the construct first/middle/last/alone.",
+         "Trusted base: the monitor's own expected-circuit computation; decimals are compared within the f32 precision the parser documents; 0-qubit circuits excluded (OpenQASM has no empty register).", "6/C14"),
 }
 
 NOT_YET = {}
